@@ -97,6 +97,7 @@ GENERATORS = [
                                      'src/lib/data_mgr/SecureDataManager.h', 'src/lib/data_mgr/RFC4880.h', 'src/lib/handle_mgr/Handle.h',
                                      'src/lib/object_store/OSAttributes.h', 'src/lib/pkcs11/cryptoki.h']),
     ('Gen_Parity.v', 'gen_parity.py', ['src/lib/crypto/odd.h']),
+    ('Gen_Table.v', 'gen_table.py', ['src/lib/P11Objects.cpp', 'src/lib/P11Attributes.h', 'src/lib/P11Attributes.cpp', 'src/lib/P11Objects.h']),
     ('Gen_Pure.v', 'gen_pure.py', ['src/lib/access.cpp', 'src/lib/session_mgr/Session.cpp', 'src/lib/P11Attributes.cpp', 'src/lib/P11Attributes.h',
                                    'src/lib/session_mgr/Session.h', 'src/lib/access.h']),
 ]
